@@ -629,14 +629,23 @@ ZVC_SRC = os.path.join(VERIF, "harness", "zvc", "src")
 
 
 def corpus_sizes(run):
-    return {"proxy": 600 if run.tier == "thorough" else 60}
+    import corpora
+    return corpora.sizes(run.tier)
+
+
+_corpora = {}
 
 
 def pregen_corpora(run, cfg, G):
-    """(Re)generates every generated source of the corpus crate from the seed, so that it builds."""
-    import subprocess, sys
-    n = corpus_sizes(run)
-    subprocess.run([sys.executable, os.path.join(CORPUS, "gen_proxy.py"), str(run.seed), str(n["proxy"]), os.path.join(ZVC_SRC, "gen_proxy.rs")], check=True)
+    """(Re)generates every generated source of the corpus crate from the seed, runs stage A, and builds the
+    crate with generated modules that do not compile isolated (they are failing inputs of C15 / C16)."""
+    import corpora
+    key = (run.seed, run.tier)
+    if key not in _corpora:
+        _corpora[key] = corpora.generate(run.seed, run.tier)
+    run.corpora = _corpora[key]
+    if not run.corpora["ok"]:
+        run.notes += run.corpora["notes"]
 
 
 def proxy_nontrivial(inp, impl):
@@ -667,6 +676,55 @@ def run_proxy(run, cfg, G):
     run.cov["rule"] = ("a corpus of %d proxy traits generated from the seed (methods of 1..4 words/digits, renamed or not; 0..4 parameters of u32 / i64 / bool / &str / String / Option / slice / struct / generic types with optional wire renames; elided and explicit lifetimes; more / oneway), "
                        "compiled against /repo's macros on every run; every method is called in its plain, chain_ and chain-extension forms with random literal arguments on a capturing connection and the frames compared with the model and with the frame the property demands; "
                        "plain methods are also fed 10 reply frames (success with/without parameters, declared / malformed / undeclared / standard errors, garbage) and streaming methods a 3-reply script; non-trivial = by form / feature; distinct = distinct case lines" % corpus_sizes(run)["proxy"])
+
+
+def cg_nontrivial(inp, impl):
+    k = inp.split()[0]
+    ks = [k]
+    if k == "cgdecl":
+        if "r#" in impl:
+            ks.append("decl-raw-identifier")
+        if "_ " in impl:
+            ks.append("decl-underscored-keyword")
+    if k == "case":
+        return ["heck"]
+    return ks
+
+
+def cg_known_key(line):
+    if line.startswith("cgreply ") and " R 1 V {} " in line:
+        return "unit-output-empty-parameters"
+    return None
+
+
+def run_cg(run, cfg, G):
+    co = getattr(run, "corpora", {"cg_failed": {}})
+    for pre in ("cgdecl", "case", "cgcall", "cgreply", "cgerr", "cgtype", "cgenc"):
+        diff_run(run, G, ["cg"], pre, cg_nontrivial, "cg-" + pre, known_key=cg_known_key)
+    # generated modules that do not compile
+    gen_failed = [i for i, b in sorted(co.get("cg_failed", {}).items()) if b["where"] == "generated"]
+    for idx, b in sorted(co.get("cg_failed", {}).items()):
+        if b["where"] == "generated" and idx != gen_failed[0]:
+            continue
+        if b["where"] == "generated":
+            path = run.replay_path(f"cg-does-not-compile-{idx}")
+            json.dump({"property": run.pid, "kind": "the code generated for this interface description does not compile",
+                       "idl": b["idl"], "rustc": b["error"], "at": b["at"], "modules_failing_total": len(gen_failed), "modules_failing": gen_failed,
+                       "replay": "python3 /verif/bin/corpora.py %d %s  # then see harness/zvc/src/gencg/m%d.rs" % (run.seed, run.tier, idx)}, open(path, "w"), indent=1)
+            run.violations.append(("impl", path, ""))
+        else:
+            path = run.replay_path(f"cg-exercise-does-not-fit-{idx}")
+            json.dump({"property": run.pid, "kind": "correspondence broken: the exercise code written from the IDL tree no longer compiles against the generated module (its Rust spellings or types changed)",
+                       "idl": b["idl"], "rustc": b["error"], "at": b["at"]}, open(path, "w"), indent=1)
+            run.pending_corr = getattr(run, "pending_corr", []) + [(f"cg-exercise-{idx}", path)]
+    finish_corr(run, G, [])
+    n = corpus_sizes(run)["cg"]
+    run.cov["programs"] = n
+    run.cov["compile_failures"] = len(co.get("cg_failed", {}))
+    run.cov["rule"] = ("a corpus of %d interface descriptions generated from the seed (0..3 non-recursive custom types, 1..4 methods, 0..3 errors in any order; nested ?/[]/[string]/inline struct/inline enum/foreign object types; names with acronyms, digits, camelCase, snake_case, upper-case initials and Rust keywords incl. self/Self/super/crate/try/yield; last interface segments such as 9p, self, foo-bar), "
+                       "each run through zlink_codegen::generate_interface of the working tree, the output compiled (modules that fail are isolated and reported), its declarations read back with syn and compared with the model's; "
+                       "every method called twice with random values of the declared types on a capturing connection (frame compared), fed a success reply (decoded value serialised again and compared) and - first method - every declared error; every custom type decoded from / encoded to the IDL's spelling; "
+                       "heck itself compared with the model's port on every name of length <= 5 over {a,B,2,_} and the corpus' name pools; non-trivial = by line kind; distinct = distinct case lines" % n)
 
 
 RX_ASSUME = [
@@ -745,6 +803,20 @@ PROPS = {
             "`for every trait the macro accepts` is approached by the corpus grammar (60 / 600 generated traits compiled per run), not proved about syn token streams; the theorems quantify over the declaration data type the generator spans",
             "trait shapes the macro itself rejects at compile time (e.g. a generic method whose reference parameters have elided lifetimes: `'__proxy_params` is undeclared) are outside the property's domain and avoided by the generator",
             "serde-derived serialisation of the generated parameter structs is as modelled (field order = declaration order, None skipped when annotated)",
+        ],
+    },
+    "C15": {
+        "property_modules": ["Zlink.Properties.C15"], "lean_modules": ["Zlink.Properties.C15"],
+        "theorems": ["C15.C15_method_names", "C15.C15_param_names", "C15.C15_call_params", "C15.C15_field_names", "C15.C15_output_names",
+                     "C15.C15_variant_spelling", "C15.C15_error_names", "C15.C15_keywords", "C15.C15_not_raw_table", "C15.C15_keyword_table",
+                     "C15.C15_type_table", "C15.C15_output_lifetime", "C15.C15_prim_rows", "C15.C15_rename_needed"],
+        "run": run_cg, "pregen": pregen_corpora, "package": "zvc", "trusted_base": TB_COMMON,
+        "assumptions": [
+            "`the generated Rust code compiles` is a fact about rustc: established for the corpus only (25 / 300 interfaces per run), never by a theorem; C15_output_lifetime and C15_keywords prove the two model-level conditions whose violation made modules fail to compile on the pinned tree",
+            "what the generated declarations mean on the wire is taken from the proxy-macro model (C12), serde's derive semantics (field key = rename or unraw identifier; unit variant = rename or identifier) and the ReplyError derive (error name = interface.rename-or-identifier): these are modelled, and observed only through the compiled corpus",
+            "inline structs and inline enums are held as serde_json::Value / String by the generated code: their values are not constrained or re-spelled by it (C15_type_table states the widening)",
+            "collision-free names: the corpus rejects interfaces whose converted Rust names collide, member names reused across kinds, and custom types named like prelude items",
+            "value-level round trips (cgreply / cgtype / cgenc / cgerr) are decided by the oracle on the corpus; the theorems cover names, keys, the parameter object, type shapes, keywords and lifetimes for every interface tree",
         ],
     },
     "C13": {
